@@ -110,7 +110,7 @@ def racy_codes(extra=()):
     H = hsm.HsmWithQueues
     for n in ("post_fifo", "post_lifo", "defer", "recall", "next_rtc", "complete_circuit"):
         codes += sched.code_objects_of(vars(H)[n])
-    codes += sched.code_objects_of(hsm.append_fifo_to_spy)
+    codes += sched.code_objects_of(*[f for f in (getattr(hsm, "append_fifo_to_spy", None),) if f])
     seen, out = set(), []
     for c in list(codes) + list(extra):
         if c not in seen:
